@@ -41,8 +41,7 @@ def _i16(d, p):
     if p + 2 > len(d):
         raise BadMarshal("EOF")
     v = d[p] + 256 * d[p + 1]
-    if v >= 32768:
-        v = v - 65536
+    v = v - 65536 * (v // 32768)     # branch-free sign extension
     return v, p + 2
 
 
@@ -50,16 +49,15 @@ def _i32(d, p):
     if p + 4 > len(d):
         raise BadMarshal("EOF")
     v = d[p] + 256 * d[p + 1] + 65536 * d[p + 2] + 16777216 * d[p + 3]
-    if v >= 2147483648:
-        v = v - 4294967296
+    v = v - 4294967296 * (v // 2147483648)     # branch-free sign extension
     return v, p + 4
 
 
 def _i64(d, p):
-    lo, p = _i32(d, p)
-    hi, p = _i32(d, p)
-    if lo < 0:
-        lo = lo + 4294967296
+    if p + 8 > len(d):
+        raise BadMarshal("EOF")
+    lo = d[p] + 256 * d[p + 1] + 65536 * d[p + 2] + 16777216 * d[p + 3]
+    hi, p = _i32(d, p + 4)
     return hi * 4294967296 + lo, p
 
 
